@@ -96,4 +96,50 @@ theorem consistent_unique (S : RuleSys N V) (rk : N → Nat)
       intro m hm
       exact ih (rk m) (h ▸ wf n hc m hm) m rfl
 
+/-- **a property that every rule propagates from its reads to its result holds for everything a
+run recomputes**, provided it holds for what the chain reads from outside (simulations: "contains no
+hour before the date", once the ancestors outside the chain have been cut at the date) -/
+theorem run_pred (S : RuleSys N V) (P : V → Prop)
+    (hrule : ∀ n σ, (∀ m ∈ S.reads n, P (σ m)) → P (S.rule n σ))
+    (chain : List N) (hnd : chain.Nodup) :
+    ∀ (σ : N → V), (∀ l₁ n l₂, chain = l₁ ++ n :: l₂ → ∀ m ∈ S.reads n, m ∉ l₂ ∧ m ≠ n) →
+      (∀ n ∈ chain, ∀ m ∈ S.reads n, m ∉ chain → P (σ m)) →
+      ∀ n ∈ chain, P (run S σ chain n) := by
+  induction chain with
+  | nil => intro σ _ _ n hn; cases hn
+  | cons a as ih =>
+    intro σ ordered hout n hn
+    obtain ⟨ha, has⟩ := List.nodup_cons.mp hnd
+    simp only [run, List.foldl_cons]
+    have hPa : P (recompute S σ a a) := by
+      simp only [recompute, if_true]
+      apply hrule
+      intro m hm
+      have := ordered [] a as rfl m hm
+      exact hout a (by simp) m hm (by
+        intro hin
+        rcases List.mem_cons.mp hin with h | h
+        · exact this.2 h
+        · exact this.1 h)
+    have ordered' : ∀ l₁ n l₂, as = l₁ ++ n :: l₂ → ∀ m ∈ S.reads n, m ∉ l₂ ∧ m ≠ n := by
+      intro l₁ n l₂ h m hm
+      exact ordered (a :: l₁) n l₂ (by simp [h]) m hm
+    have hout' : ∀ n ∈ as, ∀ m ∈ S.reads n, m ∉ as → P (recompute S σ a m) := by
+      intro n hn' m hm hmas
+      by_cases hma : m = a
+      · rw [hma]; exact hPa
+      · have : recompute S σ a m = σ m := by simp [recompute, hma]
+        rw [this]
+        exact hout n (by simp [hn']) m hm (by
+          intro hin
+          rcases List.mem_cons.mp hin with h | h
+          · exact hma h
+          · exact hmas h)
+    rcases List.mem_cons.mp hn with rfl | hn'
+    · have h1 : run S (recompute S σ n) as n = recompute S σ n n := run_not_mem S as _ n ha
+      simp only [run] at h1
+      rw [h1]
+      exact hPa
+    · exact ih has (recompute S σ a) ordered' hout' n hn'
+
 end Efp.Theory
